@@ -126,6 +126,7 @@ def check(src, rep):
     thorough = rep.tier == "thorough"
     allp = [set(i for i in range(n) if (mask >> i) & 1) for mask in range(1 << n)]
     patterns = allp if thorough else [p_ for p_ in allp if len(p_) <= 2 or len(p_) == n]
+    PAY_PRIME, PAY_NEXT = b"\x02an earlier payload", b"\x03a later payload"  # distinct payloads: one payload is accepted by the same decoders every time it is seen
     PAY = b"\n \x01pay load\t\r\n"  # begins and ends with octets a text normalisation (strip, splitlines, decode) would touch: decoders must get it verbatim
     fnp, fnm, fnn = C.methods["decode_message_payload"], C.methods["decode_message"], C.methods["previous_success_decoder"]
     init_fn = C.methods.get("__init__")
@@ -140,7 +141,7 @@ def check(src, rep):
                 raise Undecided(f"AutoDecoder.__init__ outside the interpreted subset: {r}")
         if prev is not None:
             state["accept"], state["calls"] = {prev}, []
-            r = AE.apply(fnp, [obj, PAY])
+            r = AE.apply(fnp, [obj, PAY_PRIME])
             if r[0] in ("undecided", "branch"):
                 raise Undecided(f"AutoDecoder.decode_message_payload outside the interpreted subset: {r[1]}")
         return obj
@@ -210,7 +211,7 @@ def check(src, rep):
                       "the remembered decoder changes although nobody accepted the payload", at, f"{desc}: previous_success_decoder becomes {got_name!r}, expected {want_name!r}")
                 # the next call starts with the remembered decoder and nothing else of the history matters: same payload accepted by everybody
                 state["accept"], state["calls"] = set(range(n)), []
-                r2 = AE.apply(fnp, [obj, PAY])
+                r2 = AE.apply(fnp, [obj, PAY_NEXT])
                 first2 = state["calls"][0][0] if state["calls"] else None
                 if r2[0] == "value" and first2 != (new_prev if new_prev else 0):
                     V("R2", "extra-state", "after this call the next decode does not start with the remembered decoder (the object carries other state of the history)", at,
@@ -231,6 +232,34 @@ def check(src, rep):
                 break
         if und:
             break
+    # a payload seen before is decoded again from the state the object is in now: history [PAY (accepted by S), another payload (accepted by b only), PAY again]
+    if not und:
+        for S in patterns:
+            if not S or und:
+                continue
+            for b in range(n):
+                obj = fresh(None)
+                state["accept"], state["calls"] = S, []
+                r1 = AE.apply(fnp, [obj, PAY])
+                state["accept"] = {b}
+                r2 = AE.apply(fnp, [obj, PAY_NEXT])
+                state["accept"], state["calls"] = S, []
+                r3 = AE.apply(fnp, [obj, PAY])
+                cells += 1
+                desc = f"history: payload A accepted by {[names[i] for i in sorted(S)]}, payload B accepted by {names[b]} only, payload A again"
+                if any(r[0] in ("undecided", "branch") for r in (r1, r2, r3)):
+                    if "success-by-truthiness" not in [t for _, t in viol]:
+                        und = f"{desc}: {[r[1] for r in (r1, r2, r3) if r[0] in ('undecided', 'branch')][0]!r}"
+                    break
+                if "raise" in (r1[0], r2[0], r3[0]):
+                    continue  # reported by the table above
+                want, new_prev = expected(b, S)
+                if r3[1] != want:
+                    V("R1", "repeated-payload", "a payload that was decoded before is not decoded from the state the object is in now (the earlier result is given again)", fnp,
+                      f"{desc}: third call returns {r3[1]!r}, expected {want!r}")
+                elif remembered(obj) != names[new_prev]:
+                    V("R2", "repeated-payload", "decoding a payload that was decoded before does not update the remembered decoder", fnp,
+                      f"{desc}: previous_success_decoder is {remembered(obj)!r} after the third call, expected {names[new_prev]!r}")
     rep.count("rotation_cells", cells)
     # empty / absent payload
     if not und:
